@@ -43,3 +43,50 @@ Qed.
 
 Print Assumptions src_op_did_sign.
 Print Assumptions src_acct_did_sign.
+
+(* ---------- SigningKeys.Keys / Contains / GetScope: the key set is a map from key to scope (an opaque value; nil for a
+   plain key), read as an association list ---------- *)
+Section SigningKeys.
+  Context {V : Type} (vnil : V).
+  Lemma src_sk_contains (sk : list (string * V)) (k : string) :
+    V2.SigningKeys_Contains V vnil sk k = existsb (fun e => (fst e =? k)%string) sk.
+  Proof.
+    unfold V2.SigningKeys_Contains, go_pget.
+    induction sk as [|[k' v] sk IH]; [reflexivity|]. cbn [go_plookup existsb fst].
+    destruct (k' =? k)%string; [reflexivity|exact IH].
+  Qed.
+  Definition sk_keys_body (_ : Z) (e : string * V) (keys : list string) : ctl (list string) (list string) :=
+    let '(k, _) := e in Cont (keys ++ [k]).
+  Lemma src_sk_keys_loop : forall (sk : list (string * V)) (i : Z) (keys : list string),
+    go_range (R:=list string) sk_keys_body i sk keys = inl (keys ++ map fst sk).
+  Proof.
+    induction sk as [|[k v] sk IH]; intros i keys; [cbn; now rewrite app_nil_r|].
+    cbn [go_range map fst]. unfold sk_keys_body at 1. rewrite IH, <- app_assoc. reflexivity.
+  Qed.
+  Lemma src_sk_keys (sk : list (string * V)) : V2.SigningKeys_Keys V vnil sk = map fst sk.
+  Proof.
+    unfold V2.SigningKeys_Keys. cbv zeta.
+    change (go_range _ 0%Z sk []) with (go_range (R:=list string) sk_keys_body 0%Z sk []).
+    rewrite src_sk_keys_loop. reflexivity.
+  Qed.
+  Lemma src_sk_get_scope (sk : list (string * V)) (k : string) :
+    V2.SigningKeys_GetScope V vnil sk k = match go_plookup sk k with Some v => (v, true) | None => (vnil, false) end.
+  Proof. unfold V2.SigningKeys_GetScope, go_pget. destruct (go_plookup sk k); reflexivity. Qed.
+End SigningKeys.
+
+Lemma src_acct_did_sign_gen (contains : string -> bool) id keys c : (forall k, contains k = smem k keys) ->
+  V2.AccountClaims_DidSign contains id (sc_iss' c) (sc_ia' c) (sc_ia' c) (sc_is KActivation c) (sc_is KUser c) (sc_nil c)
+  = acct_did_sign id keys c.
+Proof.
+  intros H. unfold V2.AccountClaims_DidSign, acct_did_sign. destruct c as [c|]; cbn [sc_nil sc_iss' sc_ia' sc_is negb]; [|reflexivity].
+  cbv zeta. destruct (sc_iss c =? id); [reflexivity|].
+  destruct (ckind_eqb (sc_kind c) KUser && (sc_issuer_account c =? id)); [apply H|].
+  destruct (ckind_eqb (sc_kind c) KActivation && (sc_issuer_account c =? id)); [apply H|reflexivity].
+Qed.
+Lemma smem_map_fst {V : Type} (sk : list (string * V)) (k : string) :
+  existsb (fun e => (fst e =? k)%string) sk = smem k (map fst sk).
+Proof. unfold smem. induction sk as [|[k' v] sk IH]; [reflexivity|]. cbn [existsb map fst]. rewrite IH. reflexivity. Qed.
+Lemma src_acct_did_sign_keyset {V : Type} (vnil : V) (sk : list (string * V)) id (c : option sclaim) :
+  V2.AccountClaims_DidSign (V2.SigningKeys_Contains V vnil sk) id (sc_iss' c) (sc_ia' c) (sc_ia' c) (sc_is KActivation c) (sc_is KUser c) (sc_nil c)
+  = acct_did_sign id (map fst sk) c.
+Proof. apply src_acct_did_sign_gen. intros k. rewrite src_sk_contains. apply smem_map_fst. Qed.
